@@ -138,9 +138,9 @@ class Prop(PropBase):
             kw = dict(center_freq=self._q(case["cf"]) + 3 * bwq, freq_align={"bottom": "top", "center": "bottom"}.get(case["al"], "center"))
         try:
             if sigs.is_complex(cls):
-                z = sigs.make(pb, cls, 256 if case["n"] <= 1024 else 8, bwq, sigs.T0S[0], nchan=case["n"], **kw)
+                z = sigs.make(pb, cls, 256 if case["n"] <= 1024 else 8, bwq, sigs.T0S[len(str(case)) % len(sigs.T0S)], nchan=case["n"], **kw)
             else:
-                z = sigs.make(pb, cls, 256 if case["n"] <= 1024 else 8, 1 * u.kHz, sigs.T0S[0], nchan=case["n"], chan_bw=bwq, **kw)
+                z = sigs.make(pb, cls, 256 if case["n"] <= 1024 else 8, 1 * u.kHz, sigs.T0S[len(str(case)) % len(sigs.T0S)], nchan=case["n"], chan_bw=bwq, **kw)
             if via_setter:
                 z.center_freq = self._q(case["cf"])
                 z.freq_align = case["al"]
@@ -153,7 +153,7 @@ class Prop(PropBase):
             try:
                 if op[0] == "fs":
                     y = z[:, slice(*op[1:])]
-                    same_time = (len(y) == len(z) and y.start_time == z.start_time and y.sample_rate == z.sample_rate)
+                    same_time = (len(y) == len(z) and y.start_time == z.start_time and y.start_time.scale == z.start_time.scale and y.sample_rate == z.sample_rate)
                 elif op[0] == "tfs":
                     y = z[slice(*op[1]), slice(*op[2])]
                     yt = z[slice(*op[1])]
@@ -161,7 +161,7 @@ class Prop(PropBase):
                                  and y.sample_rate == yt.sample_rate)
                 elif op[0] == "stokes":
                     y = z[op[1]]
-                    same_time = (len(y) == len(z) and y.start_time == z.start_time and y.sample_rate == z.sample_rate
+                    same_time = (len(y) == len(z) and y.start_time == z.start_time and y.start_time.scale == z.start_time.scale and y.sample_rate == z.sample_rate
                                  and type(y).__name__ == "IntensitySignal"
                                  and bool(self.np.array_equal(self.np.asarray(y.data),
                                                               self.np.asarray(z.data)[:, :, "IQUV".index(op[1])])))
